@@ -541,6 +541,43 @@ def gen_nest(rng, depth, top=True):
   return rng.choice([{'t': [1]}, {'t': []}, {'t': ['s', 1]}, {'t': [None, 1]}, {'l': [{'t': [1]}]}])
 
 
+SEQ_PATHS = {
+    'mem': ['/mem/sq/a.mem', '/mem/sq/b.mem'],
+    'memN': ['/mem/sq/a.mem@3', '/mem/sq/a.mem@4'],
+    'line': ['/mem/sq/a.jsonl', '/mem/sq/deep/b.jsonl'],
+    'std': ['a.jsonl', 'sub/b.jsonl'],
+}
+
+
+def gen_seq_case(rng):
+  """Histories on one sequence backend with aliasing steps: read, change a returned record in
+  place, read again (same / second reader, also after re-opening for append)."""
+  backend = rng.weighted([(4, 'mem'), (3, 'memN'), (3, 'line'), (2, 'std')])
+  def record():
+    k = rng.below(5)
+    if k == 0:
+      return rng.choice([1, 'r', None])
+    if k <= 2:
+      return {'d': [[rng.choice(['a', 'b', 'k']), rng.choice([1, 'x', {'l': [1]}])]]}
+    return {'l': [rng.below(5) for _ in range(rng.below(3))]}
+  ops, reads, started = [], 0, set()
+  for _ in range(rng.randint(3, 10)):
+    p = rng.below(2)
+    k = rng.weighted([(4, 'add'), (4, 'read'), (3 if reads else 0, 'mutate'), (2, 'read2')])
+    if p not in started:
+      k = 'add'
+    if k == 'add':
+      m = 'w' if p not in started or rng.chance(0.2) else 'a'
+      started.add(p)
+      ops.append({'k': 'add', 'p': p, 'm': m, 'v': [record() for _ in range(rng.randint(1, 3))]})
+    elif k == 'mutate':
+      ops.append({'k': 'mutate', 'r': rng.below(reads), 'i': rng.below(3)})
+    else:
+      ops.append({'k': k, 'p': p})
+      reads += 1
+  return {'kind': 'seq', 'backend': backend, 'ops': ops}
+
+
 def gen_dna_case(rng):
   tg = TreeGen(rng, floats=False, objects=False)
   meta = None
@@ -1425,6 +1462,71 @@ class _Impl:
             'empty_tuple': '"t": []' in json.dumps(wire(spec)),
             'empty_fixed_tuple': '["tuplef", []' in json.dumps(wire(spec))}
 
+  # -- sequence backends: aliasing between what a read returns and what the store holds --------
+  def mutate_in_place(self, x):
+    pg = self.pg
+    try:
+      if isinstance(x, dict):
+        x['zz_mut'] = 1
+      elif isinstance(x, list):
+        x.append('zz_mut')
+    except Exception:   # pylint: disable=broad-except
+      pass
+
+  def seq(self, case):
+    pg, pg_io = self.pg, self.pg_io
+    from pyglove.core.io import sequence as seq_mod
+    for ext in ('x.mem',):
+      io = seq_mod._registry.get(ext)                # pylint: disable=protected-access
+      if hasattr(io, '_root'):
+        io._root.clear()                             # pylint: disable=protected-access
+      if hasattr(io, '_decoded'):
+        io._decoded.clear()                          # pylint: disable=protected-access
+    self.reset_mem()
+    tmp = self.tempfile.TemporaryDirectory(prefix='c05-seq-') if case['backend'] == 'std' else None
+    paths = [os.path.join(tmp.name, q) if tmp else q for q in SEQ_PATHS[case['backend']]]
+    outs, held = [], []
+    try:
+      for op in case['ops']:
+        try:
+          if op['k'] == 'add':
+            with pg.open_jsonl(paths[op['p']], op['m']) as f:
+              for v in op['v']:
+                f.add(self.build(v))
+            outs.append(None)
+          elif op['k'] == 'mutate':
+            recs = held[op['r']]
+            if op['i'] < len(recs):
+              self.mutate_in_place(recs[op['i']])
+            outs.append(None)
+          else:
+            path = paths[op['p']]
+            if op['k'] == 'read2':
+              g1, g2 = pg.open_jsonl(path, 'r'), pg.open_jsonl(path, 'r')
+              first = list(iter(g1))
+              for x in first:
+                self.mutate_in_place(x)
+              recs = list(iter(g2))
+              g1.close()
+              g2.close()
+            else:
+              with pg.open_jsonl(path, 'r') as f:
+                recs = list(iter(f))
+            held.append(recs)
+            with pg_io.open_sequence(path, 'r') as f:
+              raw = list(iter(f))
+            outs.append({'r': raw, 'v': [self.to_wire(x) for x in recs]})
+        except Exception as e:   # pylint: disable=broad-except
+          if op['k'] in ('read', 'read2'):
+            held.append([])
+          outs.append({'err': type(e).__name__})
+    finally:
+      if tmp:
+        tmp.cleanup()
+    self.reset_mem()
+    return {'outs': outs, 'model': {'reads': [{'r': o['r']} if isinstance(o, dict) and 'r' in o else o
+                                              for op, o in zip(case['ops'], outs) if op['k'] in ('read', 'read2')]}}
+
   # -- callables of every origin -------------------------------------------------------------
   PLAIN_FN = ('module-def', 'module-lambda', 'class-body-def', 'class-body-lambda', 'nested-def', 'nested-lambda')
 
@@ -1844,6 +1946,8 @@ class C05(Prop):
       yield gen_dna_case(rng)
     for i in range(400 if quick else 12000):
       yield gen_vspec_case(rng)
+    for i in range(300 if quick else 12000):
+      yield gen_seq_case(rng)
     origins = ['module-def', 'module-lambda', 'class-body-lambda', 'class-body-def', 'nested-def', 'nested-lambda',
                'builtin', 'classmethod', 'partial']
     for origin in origins:                       # small and exhaustive: every origin in every position
@@ -1914,6 +2018,8 @@ class C05(Prop):
       return im.dyn(case)
     if k == 'callable':
       return im.callable_case(case)
+    if k == 'seq':
+      return im.seq(case)
     raise AssertionError(k)
 
   def model_request(self, case):
@@ -1929,6 +2035,30 @@ class C05(Prop):
       return req
     if k == 'callable':
       return {'op': 'fn'}
+    if k == 'seq':
+      b = case['backend']
+      if b == 'std':
+        return None
+      paths = SEQ_PATHS[b]
+      if b in ('mem', 'memN'):
+        ops = []
+        for op in case['ops']:
+          if op['k'] == 'add':
+            ops.append({'k': 'add', 'p': paths[op['p']], 'm': op['m'], 'r': [json_text_of_tree(v) for v in op['v']]})
+          elif op['k'] == 'mutate':
+            ops.append({'k': 'mutate'})
+          else:
+            ops.append({'k': 'read', 'p': paths[op['p']]})
+        return {'op': 'memseq', 'ops': ops}
+      ops = []
+      for op in case['ops']:
+        if op['k'] == 'add':
+          ops.append({'k': 'seqw', 'p': paths[op['p']], 'm': op['m'], 'r': [json_text_of_tree(v) for v in op['v']]})
+        elif op['k'] == 'mutate':
+          ops.append({'k': 'exists', 'p': paths[0]})
+        else:
+          ops.append({'k': 'seqr', 'p': paths[op['p']]})
+      return {'op': 'store', 'cfg': 'patched', 'ops': ops}
     if k == 'dyn':
       self.setup_impl()
       im = C05._impl
@@ -1979,6 +2109,10 @@ class C05(Prop):
 
   def compare(self, case, impl_out, model_out):
     k = case['kind']
+    if k == 'seq':
+      reads = [o for op, o in zip(case['ops'], model_out['outs']) if op['k'] in ('read', 'read2')]
+      a = impl_out['model']['reads']
+      return None if a == reads else 'sequence reads: impl=%s model=%s' % (json.dumps(a)[:300], json.dumps(reads)[:300])
     if k == 'callable':
       if impl_out.get('model') is None:
         return None
@@ -2057,6 +2191,21 @@ class C05(Prop):
     k = case['kind']
     if k == 'dyn':
       return self.oracle({'kind': 'codec', 'value': out['wire'], 'ap': False}, out)
+    if k == 'seq':
+      spec = {}
+      for i, (op, o) in enumerate(zip(case['ops'], out['outs'])):
+        err = isinstance(o, dict) and o.get('err')
+        if op['k'] == 'add':
+          if err:
+            return {'signature': 'seq:add-raises', 'what': 'op %d raises %s' % (i, err)}
+          spec[op['p']] = (list(spec.get(op['p'], [])) if op['m'] == 'a' else []) + list(op['v'])
+        elif op['k'] in ('read', 'read2'):
+          want = spec.get(op['p'], [])
+          if err or o['v'] != want:
+            return {'signature': 'seq:%s:read-differs-from-appended' % case['backend'],
+                    'what': 'op %d (%s on backend %s): read gives %s, appended %s' % (
+                        i, op['k'], case['backend'], json.dumps(o)[:200], json.dumps(want)[:200])}
+      return None
     if k == 'callable':
       if out['problems']:
         return {'signature': 'callable:%s:%s' % (case['origin'] if case['wrap'] != 'default' else 'field-default',
@@ -2336,6 +2485,8 @@ class C05(Prop):
       return 'extra' in case or case['desc']['k'] in ('list', 'tuple', 'dict', 'union')
     if k in ('dyn', 'callable'):
       return True
+    if k == 'seq':
+      return any(op['k'] == 'mutate' or op['k'] == 'read2' for op in case['ops'])
     if k in ('store', 'hstore'):
       ops = case['ops']
       wrote = set()
@@ -2381,6 +2532,10 @@ class C05(Prop):
     elif k in ('load', 'load_str'):
       rt = out['model']['rt']
       h.append('%s%s:%s' % (k, '+auto_dict' if case.get('auto_dict') else '', 'ok' if 'ok' in rt else rt['err']))
+    elif k == 'seq':
+      h.append('seq:backend=' + case['backend'])
+      for op, o in zip(case['ops'], out['outs']):
+        h.append('seq:op:%s%s' % (op['k'], ':' + o['err'] if isinstance(o, dict) and o.get('err') else ''))
     elif k == 'callable':
       h.append('callable:%s:%s' % (case['origin'], case['wrap']))
     elif k == 'dyn':
@@ -2418,6 +2573,15 @@ class C05(Prop):
 
   def shrink_candidates(self, case):
     k = case['kind']
+    if k == 'seq':
+      ops = case['ops']
+      for i in range(len(ops)):
+        if ops[i]['k'] in ('read', 'read2') and any(o['k'] == 'mutate' for o in ops[i + 1:]):
+          continue          # keeps the numbering of the reads
+        c = dict(case)
+        c['ops'] = ops[:i] + ops[i + 1:]
+        if c['ops']:
+          yield c
     if k == 'hstore':
       ops = case['ops']
       for i in range(len(ops)):
